@@ -146,6 +146,10 @@ func main() {
 			if what := LiveReentrant(c.Sched[len("live-re-"):]); what != "" {
 				r.Fail("live-reentrant:"+c.Sched[len("live-re-"):], what, c)
 			}
+		case c.Back != nil:
+			runBackCase(c)
+		case strings.HasPrefix(c.Sched, "realclock-"):
+			realClockCase(c)
 		case c.Search != nil:
 			EmitSearch(r, c, true)
 		case c.Live:
@@ -257,6 +261,10 @@ func main() {
 	}
 	// 4. what the generators above do not vary: Runnable objects, constructors, extreme arguments, id counter, re-entrancy
 	diversityLegs(positions, run)
+	// 5. fourth round: clocks that step back between polls; the real clock with time units that are not whole milliseconds
+	if !r.Failed() {
+		legs4(positions)
+	}
 	r.Note("model-compared wheel ticks: %d (budget %d)", modelTicks, modelBudget)
 	if r.Thorough() {
 		sweep(positions)
